@@ -291,6 +291,11 @@ UC12(u) == {[inp |-> <<In222(a, {}), In222({}, d)>>, clim |-> NoClimGen, opt |->
       \* runs at 00:00 and 00:30: two times of day
       \cup {[inp |-> <<[In222({}, {}) EXCEPT !.ts = <<TimePool[1], TimePool[12]>>], [In222({}, {<<1, 2, 1>>}) EXCEPT !.ts = <<TimePool[12], TimePool[1]>>]>>, clim |-> NoClimGen, opt |-> NoOptions]}
       \cup {[inp |-> <<In12(a, {}), In12({}, d)>>, clim |-> NoClimGen, opt |-> NoOptions] : a \in {{}, {<<2, 1, 1>>, <<2, 2, 1>>, <<2, 3, 1>>}}, d \in {{<<5, 1, 2>>}}}
+\* runs in the week that starts on Monday 2012-01-02 and in the week that starts on Monday 2012-12-31: both belong to 2012, and the
+\* second is week 1 of the ISO year 2013 -- whatever numbering a label uses, the two rows must not read alike (after seed C12-h)
+In12W(mo, mf) == [ts |-> <<TimePool[9], TimePool[3], TimePool[1]>>, ls |-> <<LeadPool[1], LeadPool[3]>>, ss |-> <<LocPool[2], LocPool[1]>>,
+                  hasObs |-> TRUE, mo |-> mo, mf |-> mf, bump |-> 0]
+UC12Week(u) == {[inp |-> <<In12W({}, {}), In12W({}, {<<2, 1, 2>>})>>, clim |-> NoClimGen, opt |-> NoOptions]}
 \* station ids of five digits (more significant digits than the scores are printed with)
 UC12Ids(u) == {[inp |-> <<[In222({}, {}) EXCEPT !.ss = <<LocPool[7], LocPool[8]>>], [In222({}, {<<1, 2, 2>>}) EXCEPT !.ss = <<LocPool[8], LocPool[7]>>]>>,
                 clim |-> NoClimGen, opt |-> NoOptions],
@@ -350,7 +355,7 @@ Universe(u) ==
     [] Family = "C04Quick"  -> UC04Quick(0)
     [] Family = "C04Clim"   -> UC04Clim(0)
     [] Family = "C12"       -> UC12(0)
-    [] Family = "C12Report" -> UC12(0) \cup UC12Clim(0) \cup UC12One(0) \cup UC12Ids(0)
+    [] Family = "C12Report" -> UC12(0) \cup UC12Clim(0) \cup UC12One(0) \cup UC12Ids(0) \cup UC12Week(0)
     [] Family = "C02Order"  -> UC02Order(0)
     [] Family = "C02Sel"    -> UC02Sel(0)
     [] Family = "C02Repeat" -> UC02Repeat(0)
